@@ -34,6 +34,7 @@ theorem bornNew_step (c : Conn α) (l : Label α) : BornNew c (step c l) := by
   | get _ _ _ => rw [(step_ghost_other c _ (by intros; simp)).1] at hx; exact Or.inl hx
   | sclose _ _ => rw [(step_ghost_other c _ (by intros; simp)).1] at hx; exact Or.inl hx
   | «end» => exact Or.inl hx
+  | evict _ _ => exact Or.inl hx
 
 theorem bornNew_run {c : Conn α} (hw : Inv c) (ls : List (Label α)) : BornNew c (run c ls) := by
   induction ls generalizing c with
@@ -151,6 +152,7 @@ theorem recFacts10_step {c : Conn α} (hb : InvBorn c) (l : Label α) : RecFacts
     | wfail _ => exact absurd rfl hop
     | sclose _ _ => exact absurd rfl hop
     | «end» => exact absurd rfl hop
+    | evict _ _ => exact absurd rfl hop
 
 /-! ### the passes before the events -/
 
@@ -351,7 +353,10 @@ theorem record_ok10 (prov : α → Prov σ) {sn : σ} {og : Origin} {c c' : Conn
   obtain ⟨a1, a2⟩ := appends_ok10 hi' (appendsOf sn c c') (appendsOf_tagged hi') _ h3
   obtain ⟨e1, e2⟩ := events_ok10 (c0 := c) hi' (sentM c c') (fun _ h => h) _ a2
   rw [step_obsOf]
-  refine ⟨?_, e2⟩
+  obtain ⟨f1, _, _, f4, f5⟩ := applyPurges_frame (purgesOf sn c c') (foldV (evStep prov) (foldV (appendOne prov)
+      (learnIds (learnRows (openAll m (obsOf sn og c c')) (obsOf sn og c c')) (obsOf sn og c c')) (appendsOf sn c c')).1
+      ((sentM c c').map toSent)).1
+  refine ⟨?_, ⟨by rw [f5]; exact e2.json, by rw [f1]; exact e2.exs, by rw [f4]; exact e2.posts⟩⟩
   simp only [Viol.or, a1, e1]; rfl
 
 def WellTaggedGroups (prov : α → Prov σ) (sn : σ) : Conn α → List (List (Label α)) → Prop
